@@ -15,6 +15,9 @@ Model: `Model/Select.lean` (`allowed`: the substring heuristics of `_metadata_fi
 the string of the path) and `Model/Release.lean` (`processEntry`: size / release-name / safety filters and
 grouping).  Specification on *structured* entries (`Entry`, `render`, `mustFetch`, `mustNot`).
 
+`C10_unconfigured_component` is unbounded: for **every** configuration and every entry `<component>/<dir>/<file>` (any strings
+for the three parts, nested components included) whose component is not configured, the entry is not selected.
+
 `C10_must` / `C10_mustnot` are **finite-universe theorems** (labelled as such, DESIGN §6): they are decided
 completely, by kernel evaluation, for every configuration and every entry of the representative universe
 below (3 components incl. a nested one + 1 unconfigurable component, architectures amd64/i386/arm64/all,
@@ -134,6 +137,114 @@ theorem C10_mustnot (c : CodenameCfg) (hc : c ∈ uConfigs) (e : Entry) (he : e 
   rcases h2.2 with h3 | h3
   · rw [h] at h3; cases h3
   · exact h3
+
+
+/-! ### unbounded: entries of unconfigured components are never selected -/
+
+theorem splitOn_ne_nil (ch : Char) (s : S) : splitOn ch s ≠ [] := by
+  induction s with
+  | nil => simp [splitOn]
+  | cons c cs ih =>
+    unfold splitOn
+    split
+    · simp
+    · split <;> simp
+
+theorem splitOn_append_sep (ch : Char) (a b : S) : splitOn ch (a ++ ch :: b) = splitOn ch a ++ splitOn ch b := by
+  induction a with
+  | nil => simp [splitOn]
+  | cons c cs ih =>
+    by_cases hc : c = ch
+    · subst hc
+      simp only [List.cons_append, splitOn, if_true]
+      rw [ih]
+      try rfl
+    · simp only [List.cons_append, splitOn, hc, if_false]
+      rw [ih]
+      cases h : splitOn ch cs with
+      | nil => exact absurd h (splitOn_ne_nil ch cs)
+      | cons f fs => simp
+
+theorem splitOn_nosep (ch : Char) (d : S) (h : ch ∉ d) : splitOn ch d = [d] := by
+  induction d with
+  | nil => rfl
+  | cons c cs ih =>
+    have hc : c ≠ ch := fun e => h (by rw [e]; exact List.mem_cons_self)
+    simp only [splitOn, hc, if_false]
+    rw [ih (fun hm => h (List.mem_cons_of_mem _ hm))]
+
+theorem join_splitOn (ch : Char) (s : S) : join [ch] (splitOn ch s) = s := by
+  induction s with
+  | nil => rfl
+  | cons c cs ih =>
+    by_cases hc : c = ch
+    · subst hc
+      simp only [splitOn, if_true]
+      cases h : splitOn c cs with
+      | nil => exact absurd h (splitOn_ne_nil c cs)
+      | cons f fs =>
+        rw [h] at ih
+        simp only [join, List.nil_append, List.singleton_append]
+        rw [ih]
+    · simp only [splitOn, hc, if_false]
+      cases h : splitOn ch cs with
+      | nil => exact absurd h (splitOn_ne_nil ch cs)
+      | cons f fs =>
+        rw [h] at ih
+        cases fs with
+        | nil =>
+          simp only [join] at ih ⊢
+          rw [ih]
+        | cons g gs =>
+          simp only [join] at ih ⊢
+          rw [← ih]
+          simp
+
+/-- the component the code extracts from `<component>/<dir>/<file>` is `<component>` -/
+theorem rsplitHead_two (comp d f : S) (hd : '/' ∉ d) (hf : '/' ∉ f) :
+    rsplitHead '/' 2 (comp ++ '/' :: d ++ '/' :: f) = comp := by
+  unfold rsplitHead
+  have e : comp ++ '/' :: d ++ '/' :: f = comp ++ '/' :: (d ++ '/' :: f) := by simp
+  rw [e, splitOn_append_sep, splitOn_append_sep, splitOn_nosep '/' d hd, splitOn_nosep '/' f hf]
+  have hn : 1 ≤ (splitOn '/' comp).length := by
+    cases h : splitOn '/' comp with
+    | nil => exact absurd h (splitOn_ne_nil '/' comp)
+    | cons _ _ => simp
+  have hlen : (splitOn '/' comp ++ ([d] ++ [f])).length = (splitOn '/' comp).length + 2 := by simp
+  simp only [hlen]
+  have hmin : min 2 ((splitOn '/' comp).length + 2 - 1) = 2 := by omega
+  rw [hmin]
+  have htake : (splitOn '/' comp ++ ([d] ++ [f])).take ((splitOn '/' comp).length + 2 - 2) = splitOn '/' comp := by
+    rw [show (splitOn '/' comp).length + 2 - 2 = (splitOn '/' comp).length by omega]
+    exact List.take_left' rfl
+  rw [htake, join_splitOn]
+
+/-- **C10 (entries of unconfigured components are not fetched; unbounded).** Whatever the configuration, an entry
+    `<component>/<dir>/<file>` — `<component>` any string, nested ones (`main/debian-installer`) included, `<dir>` and `<file>` any
+    names without a slash — whose component is not configured for the codename is never selected. -/
+theorem C10_unconfigured_component (c : CodenameCfg) (comp d f : S) (hd : '/' ∉ d) (hf : '/' ∉ f)
+    (hc : ∀ k ∈ c.components, k.name ≠ comp) : allowed c (comp ++ '/' :: d ++ '/' :: f) = false := by
+  have hcount : 2 ≤ count '/' (comp ++ '/' :: d ++ '/' :: f) := by
+    unfold count
+    simp only [List.count_append, List.count_cons_self]
+    omega
+  have hfind : c.components.find? (fun k => decide (k.name = comp)) = none := by
+    rw [List.find?_eq_none]
+    intro k hk
+    simpa using hc k hk
+  unfold allowed
+  simp only []
+  split
+  · rfl
+  · split
+    · rfl
+    · have hsplit : min (count '/' (comp ++ '/' :: d ++ '/' :: f)) 2 = 2 := by omega
+      simp only [hsplit, rsplitHead_two comp d f hd hf, hfind]
+      simp
+
+example : allowed { components := [{ name := lit "main", mirrorSource := true, arches := [lit "amd64"] }] }
+    (lit "main/debian-installer/binary-amd64/Packages.xz") = false :=
+  C10_unconfigured_component _ (lit "main/debian-installer") (lit "binary-amd64") (lit "Packages.xz") (by decide) (by decide) (by decide)
 
 /-- **C10 (non-positive sizes, release files inside Release, unsafe names are never selected)** — for every
     release file, policy, configuration and prior groups (unbounded). -/
